@@ -52,7 +52,19 @@ REQUIRED_PROBES = {
 
 
 def generate(rng: random.Random, tier: str) -> dict:
-    return gen.gen_single_trace(rng, ID, tier, kind="soap")
+    t = gen.gen_single_trace(rng, ID, tier, kind="soap")
+    if rng.random() < 0.15:
+        # nearly stationary factor matrices: every step repeats the first gradient of each parameter (this is where an
+        # orthogonal iteration meets its tolerance criterion)
+        first: dict[int, list] = {}
+        for ev in t["events"]:
+            if ev["op"] == "step":
+                for i, g in enumerate(ev["g"]):
+                    if g is not None:
+                        first.setdefault(i, list(g))
+                        ev["g"][i] = list(first[i])
+        t["stationary"] = True
+    return t
 
 
 def execute(trace: dict) -> Outcome:
@@ -61,6 +73,7 @@ def execute(trace: dict) -> Outcome:
     v = run.run()
     run.probes["dtype_mismatch_run"] += 1 if any(f["dtype_mismatch"] for f in run.features) else 0
     run.probes["ignored_dims_run"] += 1 if any(f["ignored_dims"] for f in run.features) else 0
+    run.probes["stationary_history_run"] += 1 if trace.get("stationary") else 0
     return Outcome(
         violation=v,
         probes=run.probes,
